@@ -225,8 +225,8 @@ pub fn run(thorough: bool) -> Report {
     let mut rep = Report::new("C12", "exploration");
     let sps = spellings();
     let base = sps.len() as u64;
-    let n = if thorough { 3 } else { 2 };
-    let window = 6usize;
+    let n = 3;
+    let window = if thorough { 14usize } else { 6usize };
     let mut bases = 0u64;
     let mut skipped = 0u64;
     let mut evals = 0u64;
@@ -235,7 +235,7 @@ pub fn run(thorough: bool) -> Report {
     for len in 1..=n {
         let count = pow(base, len);
         let pairs_everywhere = len <= 1;
-        let pairs_window = thorough || len <= 2;
+        let pairs_window = true;
         struct Out {
             skipped: bool,
             evals: u64,
